@@ -191,6 +191,10 @@ def run(ctx, out):
             h.append(x)
         cases.append(mk(tuple(h), mx))
     ops, impl = run_histories(ctx, out, cases, "begin/commit/cancel history")
+    # the same histories against a slow but talking terminal (14 virtual seconds before every packet): nothing may change
+    slow = rng.sample(cases, min(len(cases), 600 if thorough else 150))
+    sops, _ = run_histories(ctx, out, slow, "begin/commit/cancel history, slow terminal", gap=14)
+    out.count("slow-terminal", len(sops))
     out.rule = (f"call histories over tokens a,b,c x terminal outcomes (begin: receipt issued / aborted / completed without receipt / receipt reported and then aborted; commit, cancel: completed / aborted): all histories up to depth 2 x max 0..3, "
                 f"{'all' if thorough else '5000 sampled'} of depth {depth}, random walks to depth 40; the real Feig client against the simulated terminal must return exactly the results of the abstract token map and send exactly "
                 "the specified packets (refused calls: none); implementation = model = abstract specification. non-trivial = distinct (max, history, outcomes)")
